@@ -782,6 +782,15 @@ class IdentWorld:
                     return r is True, None
                 except Exception as exc:    # pylint: disable=broad-except
                     return False, exc
+        if row['entry'] == 'sshsig_pat':
+            text, sig = self.pat_line(row)
+            with Clock(now):
+                try:
+                    r = asyncssh.validate_sshsig(MSG, sig, wanted,
+                                                 text.encode())
+                    return r is True, None
+                except Exception as exc:    # pylint: disable=broad-except
+                    return False, exc
         if row['entry'] in ('sshsig_key', 'sshsig_caline'):
             # `list' is the principals pattern list of the line
             ca = row['entry'] == 'sshsig_caline'
@@ -801,6 +810,32 @@ class IdentWorld:
                 except Exception as exc:    # pylint: disable=broad-except
                     return False, exc
         raise ValueError(row['entry'])
+
+
+def _pat_text(items):
+    return ','.join(('!' if it['neg'] else '') + it['a'] for it in items)
+
+
+def _ident_pat_line(self, row):
+    """allowed-signers line + raw signature for an sshsig_pat row."""
+    ca = row['ca']
+    ck = ('line', ca)
+    if ck not in self.sigs:
+        kp = (self.k, self.cert('user', [], 0, 5)) if ca else self.k
+        self.sigs[ck] = asyncssh.create_sshsig(kp, MSG, namespace=NS,
+                                               raw=True)
+    opts = ['cert-authority'] if ca else []
+    ns = row['nslist']
+    if ns[0]['a'] != '<absent>':
+        opts.append('namespaces="%s"' % _pat_text(ns))
+    key = self.ca if ca else self.k
+    text = ' '.join([_pat_text(row['plist'])] +
+                    ([','.join(opts)] if opts else []) +
+                    [key.export_public_key('openssh').decode('ascii')])
+    return text, self.sigs[ck]
+
+
+IdentWorld.pat_line = _ident_pat_line
 
 
 def live_identity_rows(rows, kalg='ssh-ed25519', sig_alg=b'ssh-ed25519'):
